@@ -125,16 +125,19 @@ func AnyI64(name string) int64  { return int64(input(name, 64).Uint64()) }
 func AnyI8(name string) int8    { return int8(input(name, 8).Uint64()) }
 func AnyBool(name string) bool  { return input(name, 1).Sign() != 0 }
 func AnyBytes(name string, b []byte) {
+	vectorDraw(name, len(b), 8)
 	for i := range b {
 		b[i] = AnyU8(fmt.Sprintf("%s[%d]", name, i))
 	}
 }
 func AnyU64s(name string, s []uint64) {
+	vectorDraw(name, len(s), 64)
 	for i := range s {
 		s[i] = AnyU64(fmt.Sprintf("%s[%d]", name, i))
 	}
 }
 func AnyU32s(name string, s []uint32) {
+	vectorDraw(name, len(s), 32)
 	for i := range s {
 		s[i] = AnyU32(fmt.Sprintf("%s[%d]", name, i))
 	}
@@ -387,3 +390,91 @@ func BVShlSym(x, n BV) BV {
 }
 
 func MutexHeld(m interface{}) bool { return false }
+
+
+// ---- structured vector draws for the native search ----
+// In search trials an input vector is, half of the time, filled with the digits of ONE integer taken from a
+// dictionary of boundary values of this library (small and large multiples of the group order and the field
+// prime, powers of two and their neighbours) or built from word-sized chunks (zero, all ones, random, a few
+// magic patterns): the inputs on which multi-limb arithmetic goes wrong and random bytes never land.
+
+var searchVals []*big.Int
+
+func searchSpecials() []*big.Int {
+	if searchVals != nil {
+		return searchVals
+	}
+	one := big.NewInt(1)
+	searchL, _ := new(big.Int).SetString("7237005577332262213973186563042994240857116359379907606001950938285454250989", 10)
+	searchP := new(big.Int).Sub(new(big.Int).Lsh(big.NewInt(1), 255), big.NewInt(19))
+	add := func(v *big.Int) {
+		if v.Sign() >= 0 {
+			searchVals = append(searchVals, v)
+		}
+	}
+	for _, base := range []*big.Int{searchL, searchP} {
+		for _, k := range []int64{1, 2, 3, 4, 7, 8, 9, 15, 16, 17} {
+			m := new(big.Int).Mul(base, big.NewInt(k))
+			for d := int64(-2); d <= 2; d++ {
+				add(new(big.Int).Add(m, big.NewInt(d)))
+			}
+		}
+		for _, sh := range []uint{200, 252, 255, 256, 259, 260, 261} {
+			m := new(big.Int).Lsh(base, sh)
+			add(m)
+			add(new(big.Int).Sub(m, base))
+			add(new(big.Int).Add(m, one))
+			add(new(big.Int).Sub(m, one))
+		}
+	}
+	for _, k := range []uint{0, 1, 8, 63, 64, 127, 128, 191, 192, 251, 252, 253, 254, 255, 256, 260, 261, 511, 512} {
+		p := new(big.Int).Lsh(one, k)
+		add(p)
+		add(new(big.Int).Sub(p, one))
+		add(new(big.Int).Add(p, one))
+		add(new(big.Int).Add(p, big.NewInt(12345)))
+	}
+	return searchVals
+}
+
+var searchChunks = []uint64{0, 0, 0xffffffffffffffff, 0xffffffffffffffff, 1, 0x8000000000000000, 0x7fffffffffffffff,
+	0x0888888888888888, 0xf777777777777777, 0x8888888888888888, 0x7777777777777777, 0xfffffffffffffff8, 0x00000000ffffffff, 0xffffffff00000000}
+
+func vectorDraw(name string, n, bits int) {
+	loadReplay()
+	if trial == 0 || rng == nil || n < 2 || rng.Intn(2) == 0 {
+		return
+	}
+	if drawn == nil {
+		drawn = map[string]*big.Int{}
+	}
+	if _, ok := drawn[fmt.Sprintf("%s[0]", name)]; ok {
+		return
+	}
+	var v *big.Int
+	total := n * bits
+	switch rng.Intn(3) {
+	case 0:
+		sp := searchSpecials()
+		v = sp[rng.Intn(len(sp))]
+	default:
+		v = new(big.Int)
+		for off := 0; off < total; off += 64 {
+			var c uint64
+			if rng.Intn(3) == 0 {
+				c = rng.Uint64() >> uint(rng.Intn(64))
+			} else {
+				c = searchChunks[rng.Intn(len(searchChunks))]
+			}
+			v.Or(v, new(big.Int).Lsh(new(big.Int).SetUint64(c), uint(off)))
+		}
+	}
+	mask := new(big.Int).Sub(new(big.Int).Lsh(big.NewInt(1), uint(bits)), big.NewInt(1))
+	rest := new(big.Int).Set(v)
+	for i := 0; i < n; i++ {
+		k := fmt.Sprintf("%s[%d]", name, i)
+		drawn[k] = new(big.Int).And(rest, mask)
+		drawOrder = append(drawOrder, k)
+		rest.Rsh(rest, uint(bits))
+	}
+}
